@@ -669,6 +669,7 @@ size_t derTBITDec(octet* val, size_t* len, const octet der[], size_t count,
 {
 	const octet* v;
 	size_t l;
+	size_t pad;
 	// декодировать
 	count = derDec2(&v, &l, der, count, tag);
 	if (count == SIZE_MAX)
@@ -678,6 +679,8 @@ size_t derTBITDec(octet* val, size_t* len, const octet der[], size_t count,
 	// биты дополнения в несуществующем октете?
 	if (l < 1 || v[0] > 7 || v[0] != 0 && l == 1) 
 		return SIZE_MAX;
+	// сохранить число битов дополнения (буферы val и der могут пересекаться)
+	pad = v[0];
 	// возвратить строку
 	if (val)
 	{
@@ -689,7 +692,7 @@ size_t derTBITDec(octet* val, size_t* len, const octet der[], size_t count,
 	if (len)
 	{
 		ASSERT(memIsValid(len, O_PER_S));
-		*len = (l - 1) * 8 - v[0];
+		*len = (l - 1) * 8 - pad;
 	}
 	return count;
 }
